@@ -605,7 +605,7 @@ pub fn execute(sc: &RScenario, opts: &ExecOpts) -> RunReport {
         }
         for (si, s) in seqs.iter().enumerate() {
             if !ctx.repairs_ok(&mut ss, st2, k2, s) {
-                if !j.p1 && unstable_seqs.contains(s) {
+                if !j.p1 && (unstable_seqs.contains(s) || prev_unstable) {
                     j.known("C05", "C05-a-sequence-does-not-repair", "rstar", format!("error {ei} sequence {si} [{}] (lookahead-unstable on a multi-action automaton)", fmt_seq(s)));
                 } else if !j.p1 && matches!(so, SearchOutcome::Inconclusive(_)) {
                     j.rep.probes.hit("p2_unclassifiable_c05a");
@@ -665,7 +665,9 @@ pub fn execute(sc: &RScenario, opts: &ExecOpts) -> RunReport {
         j.rep.states.push(fnv_add(gdig, format!("{}|{}|{}|{}|{}|{}", ss.top(st2), k2, sc.policy_class, outcome_class, seqs.len().min(9), n - k2.min(n)).as_bytes()));
 
         // apply the first sequence
-        prev_unstable = unstable_seqs.contains(&seqs[0]);
+        // Once a lookahead-unstable repair has been applied the parser is in a configuration the
+        // search never understood: everything later in this parse is attributed to it.
+        prev_unstable = prev_unstable || unstable_seqs.contains(&seqs[0]);
         if prev_unstable {
             unstable_applied.insert(ei);
         }
@@ -726,7 +728,8 @@ pub fn execute(sc: &RScenario, opts: &ExecOpts) -> RunReport {
                 if b < a + 3 {
                     // known only if a lookahead-unstable repair was applied at this error, or the
                     // walk had to stop earlier because one did not replay
-                    if !j.p1 && (unstable_applied.contains(&i) || (walk_stopped_unstable && !walk_ok)) {
+                    let tainted = unstable_applied.iter().next().map_or(false, |t| *t <= i);
+                    if !j.p1 && (tainted || (walk_stopped_unstable && !walk_ok)) {
                         j.known("C07", "C07-b-progress", "rstar", format!("error {} at lexeme {b}, previous at lexeme {a} (a lookahead-unstable repair was applied)", i + 1));
                     } else {
                         j.viol("C07", "C07-b-progress", format!("error {} at lexeme {b}, previous error at lexeme {a}: less than three lexemes of progress", i + 1));
